@@ -121,6 +121,9 @@ structure Adapters where
   /-- `Adapter.noGuards` / `Adapter.coreFragment`: a *domain restriction* used by machine-level
   theorems only: applying opcode 36 ends the comparison (`outOfDomain`) -/
   noSoftfork : Bool := false
+  /-- `Adapter.guardsOf`: a *domain restriction* used by machine-level theorems only: entering a guard
+  whose extension number is outside the predicate ends the comparison (`outOfDomain`) -/
+  guardDomain : Nat → Bool := fun _ => true
 
 /-- the Python, unchanged -/
 def Adapters.none : Adapters := {}
@@ -220,12 +223,9 @@ def exceeds (c : Nat) : Option Nat → Bool
   | some r => decide (c > r)
   | Option.none => false
 
-/-- what opcode 36 does under `Adapter.softforkGuard`; `remaining` is the budget left
-(`none` = unlimited) and `currentCost` the cost accumulated so far -/
-def softforkApply (ad : Adapters) (cfg : SoftforkCfg) (st : St) (operandList : Tree)
-    (currentCost : Nat) (remaining : Option Nat) : Except RefErr (Nat × St) :=
-  -- the declared cost: first argument, an unsigned integer of at most 8 bytes after stripping
-  -- leading zeros, not zero, not above the remaining budget
+/-- the declared cost of a softfork: first argument, an unsigned integer of at most 8 bytes after
+stripping leading zeros, not zero, not above the remaining budget (`none` = unlimited) -/
+def softforkCost (operandList : Tree) (remaining : Option Nat) : Except RefErr Nat :=
   match operandList with
   | .atom _ => .error .arg
   | .pair (.pair _ _) _ => .error .arg
@@ -236,32 +236,44 @@ def softforkApply (ad : Adapters) (cfg : SoftforkCfg) (st : St) (operandList : T
       let expected := unsignedFromBytes c
       if exceeds expected remaining then .error .cost
       else if expected == 0 then .error .cost
+      else .ok expected
+
+/-- `(softfork cost extension program env)` with a known extension (an unsigned integer of at most 4
+bytes) enters a guard: extension number, program, environment -/
+def softforkGuarded (cfg : SoftforkCfg) (operandList : Tree) : Option (Nat × Tree × Tree) :=
+  match operandList with
+  | .pair _ (.pair (.atom e) (.pair prog (.pair env (.atom _)))) =>
+    if topBitSet e then Option.none
+    else if (e.dropWhile (fun x => x.toNat == 0)).length > 4 then Option.none
+    else
+      let ext := unsignedFromBytes e
+      if cfg.knownExtension ext then some (ext, prog, env) else Option.none
+  | _ => Option.none
+
+/-- what opcode 36 does under `Adapter.softforkGuard`; `remaining` is the budget left
+(`none` = unlimited) and `currentCost` the cost accumulated so far -/
+def softforkApply (ad : Adapters) (cfg : SoftforkCfg) (st : St) (operandList : Tree)
+    (currentCost : Nat) (remaining : Option Nat) : Except RefErr (Nat × St) :=
+  match softforkCost operandList remaining with
+  | .error e => .error e
+  | .ok expected =>
+    -- any shape but a guard is the reference's behaviour: charge the declared cost, return nil
+    match softforkGuarded cfg operandList with
+    | Option.none =>
+      match st.push ad false_ with
+      | .error e => .error e
+      | .ok st => .ok (expected, st)
+    | some (ext, prog, env) =>
+      if !ad.guardDomain ext then .error .outOfDomain
       else
-        -- `(softfork cost extension program env)` with a known extension enters a guard;
-        -- any other shape is the reference's behaviour: charge the declared cost, return nil
-        let guarded : Option (Nat × Tree × Tree) :=
-          match operandList with
-          | .pair _ (.pair (.atom e) (.pair prog (.pair env (.atom _)))) =>
-            if topBitSet e then Option.none
-            else if (e.dropWhile (fun x => x.toNat == 0)).length > 4 then Option.none
-            else
-              let ext := unsignedFromBytes e
-              if cfg.knownExtension ext then some (ext, prog, env) else Option.none
-          | _ => Option.none
-        match guarded with
-        | Option.none =>
-          match st.push ad false_ with
-          | .error e => .error e
-          | .ok st => .ok (expected, st)
-        | some (ext, prog, env) =>
-          -- enter the guard and evaluate `program` right away (the first `eval_op` of the guarded
-          -- program is part of this step, so no budget check separates them)
-          let g : Guard := { expectedCost := currentCost + expected, extension := ext }
-          let st := { st with opStack := .exitGuard :: st.opStack, guards := g :: st.guards,
-                              valueStack := .pair prog env :: st.valueStack, depth := st.depth + 1 }
-          match evalOp ad st with
-          | .error e => .error e
-          | .ok (c, st) => .ok (c + cfg.guardCost, st)
+        -- enter the guard and evaluate `program` right away (the first `eval_op` of the guarded
+        -- program is part of this step, so no budget check separates them)
+        let g : Guard := { expectedCost := currentCost + expected, extension := ext }
+        let st := { st with opStack := .exitGuard :: st.opStack, guards := g :: st.guards,
+                            valueStack := .pair prog env :: st.valueStack, depth := st.depth + 1 }
+        match evalOp ad st with
+        | .error e => .error e
+        | .ok (c, st) => .ok (c + cfg.guardCost, st)
 
 /-- `apply_op` -/
 def applyOp (ad : Adapters) (st : St) (currentCost : Nat) (remaining : Option Nat) :
@@ -476,6 +488,10 @@ fragment (`RefErr.outOfDomain`).  Inside the fragment every operand list an oper
 evaluated (so it ends in nil and the strict and the lenient reading coincide) and no softfork guard
 is ever entered. -/
 def coreFragment (ad : Adapters) : Adapters := { ad with noInnerForm := true, noSoftfork := true }
+
+/-- **`Adapter.guardsOf`** — the domain restriction of `C01_main_guards`: softfork guards are inside
+for the extension numbers satisfying `dom`; entering any other known extension's guard is outside. -/
+def guardsOf (dom : Nat → Bool) (ad : Adapters) : Adapters := { ad with guardDomain := dom }
 
 /-- **`Adapter.noGuards`** — the domain restriction of `C01_main_lenient`: only opcode 36 (softfork
 guards) is outside; the `((X) …)` form is inside. -/
